@@ -1113,6 +1113,7 @@ static ssize_t d_cookie_read(void *ck, char *buf, size_t size) {
 }
 
 enum { RD_SOCKET, RD_FILE, RD_COOKIE };
+static unsigned char d_fill = 0xEE;   /* what the caller's buffer holds before the read (a fresh calloc'ed buffer holds zeros) */
 /* one stream read: stream = first `avail_n` bytes of s (EOF after them); elem_n = size of the leading element */
 static void d_read(int kind, const unsigned char *s, size_t avail_n, const rhdr *h, int complete, size_t bufsz, const char *what) {
 	size_t elem_n = h->hdr + h->len, consumed = 7777, pos = 0;
@@ -1121,7 +1122,7 @@ static void d_read(int kind, const unsigned char *s, size_t avail_n, const rhdr 
 	int res, expect_ok = complete && bufsz >= elem_n && bufsz >= 2;
 	static const char *KN[3] = {"KSI_FTLV_socketRead", "KSI_FTLV_fileRead(fmemopen)", "KSI_FTLV_fileRead(chunked stream)"};
 	memset(&f, 0xAB, sizeof f);
-	memset(buf, 0xEE, bufsz ? bufsz : 1);
+	memset(buf, d_fill, bufsz ? bufsz : 1);
 	d_plan_reset();
 	if (kind == RD_SOCKET) {
 		struct sockaddr_in sa;
@@ -1226,10 +1227,17 @@ static void part_d(void) {
 				/* stream ends inside the element */
 				d_nchunks = 0;
 				for (p = 1; p < n; p++) {
-					snprintf(what, sizeof what, "element %s cut after %zu bytes", vf_hex(s, n), p);
-					d_read(RD_SOCKET, s, p, &h, 0, n, what);
-					d_read(RD_FILE, s, p, &h, 0, n, what);
-					d_read(RD_COOKIE, s, p, &h, 0, n, what);
+					static const unsigned char FILL[3] = {0xEE, 0x00, 0x01};
+					int fi;
+					for (fi = 0; fi < 3; fi++) {
+						d_fill = FILL[fi];
+						snprintf(what, sizeof what, "element %s cut after %zu bytes, buffer pre-filled with %02x", vf_hex(s, n), p, d_fill);
+						d_read(RD_SOCKET, s, p, &h, 0, n, what);
+						d_read(RD_FILE, s, p, &h, 0, n, what);
+						d_read(RD_COOKIE, s, p, &h, 0, n, what);
+						d_read(RD_FILE, s, p, &h, 0, n + 300, what);
+					}
+					d_fill = 0xEE;
 				}
 				end_case();
 			}
